@@ -1,7 +1,7 @@
 """Property -> rules.  The explanation/assumption texts end up in the evidence files."""
 from .rules import dtype, evalnodes, executor, aggregates, eqfaith, compiler_rules as cr
 from .rules import cursor_rules as cu, library_rules as lib, state_rules as st, grammar_rules as gr
-from .rules import table_rules as tb, clause_rules as cl
+from .rules import table_rules as tb, clause_rules as cl, sx_exec as sx, sx_cursor as sxc
 
 TRUSTED_ABSINT = [
     "Python/library semantics of operators, attributes, methods and whitelisted callables are obtained by applying "
@@ -37,7 +37,7 @@ PROPS = {
             "resolution for nested expressions."),
         'assumptions': TRUSTED_STRUCT + TRUSTED_ABSINT[3:],
         'quick': [evalnodes.rule_nullstrict, evalnodes.rule_divguard, evalnodes.rule_promote, evalnodes.rule_opsem,
-                  evalnodes.rule_3vl, executor.rule_rowloop, executor.rule_fromand, cr.rule_implicitcast],
+                  evalnodes.rule_3vl, sx.rule_rowloop, executor.rule_fromand, cr.rule_implicitcast],
         'thorough': [],
     },
     'C02': {
@@ -70,7 +70,7 @@ PROPS = {
             "not prove that the multi-pass scheme yields the lexicographic order (an algorithmic fact about stable "
             "sorts) nor comparability of values."),
         'assumptions': TRUSTED_STRUCT,
-        'quick': [executor.rule_pipeline, executor.rule_sortskel, executor.rule_nullkey, eqfaith.rule_eqfaith,
+        'quick': [executor.rule_pipeline, executor.rule_sortskel, sx.rule_nullkey, eqfaith.rule_eqfaith,
                   cr.rule_idxbound, cr.rule_hidden],
         'thorough': [],
     },
@@ -161,7 +161,7 @@ PROPS = {
             "equality of nested and materialised results in general."),
         'assumptions': TRUSTED_STRUCT,
         'quick': [st.rule_reentrant, cr.rule_visfilter, eqfaith.rule_eqfaith, cr.rule_guards, evalnodes.rule_nullstrict,
-                  st.rule_subq1d],
+                  sx.rule_subq1d],
         'thorough': [],
     },
     'C09': {
@@ -194,7 +194,7 @@ PROPS = {
             "cursor (R-ROWCOUNT); description entries are 7-sequences of the DB-API fields (R-COLUMN7); module constants, "
             "required methods (R-MODCONST) and the exception tree (R-EXCTREE). Does not decide Python's slice arithmetic."),
         'assumptions': TRUSTED_STRUCT,
-        'quick': [cu.rule_fetchsib, cu.rule_reset, cu.rule_rowcount, cu.rule_column7, cu.rule_modconst, cr.rule_exctree],
+        'quick': [sxc.rule_fetchsib, sxc.rule_reset, sxc.rule_rowcount, cu.rule_column7, cu.rule_modconst, sxc.rule_freshcursor, cr.rule_exctree],
         'thorough': [],
     },
     'C12': {
@@ -259,7 +259,7 @@ PROPS = {
             "the call graph is over-approximated: every function of the non-front-end modules that is not import-only is "
             "treated as execution-reachable",
             "TatSu, beancount and dateutil internals perform no shared writes (summarised, not analysed)"],
-        'quick': [st.rule_shared, st.rule_tablecopy, st.rule_onceperrow, cu.rule_modconst],
+        'quick': [st.rule_shared, st.rule_tablecopy, st.rule_onceperrow, cu.rule_modconst, sxc.rule_freshcursor],
         'thorough': [],
     },
     'C11': {
@@ -311,7 +311,7 @@ PROPS = {
             "string constants and deliberately not matched (a frozen fragment). NOT decided: that printed entries load "
             "back equal (beancount's printer and parser)."),
         'assumptions': TRUSTED_STRUCT,
-        'quick': [cl.rule_fieldflow, cr.rule_exhaustive, executor.rule_printfilter],
+        'quick': [cl.rule_fieldflow, cr.rule_exhaustive, sx.rule_printfilter],
         'thorough': [],
     },
     'C15': {
